@@ -74,7 +74,9 @@ func init() {
 		}
 		for i := 0; i < n; i++ {
 			g := newDocgen(rng, false)
-			doc := dMap(dkv{"steps", g.signableSteps(4, 4, i%2 == 0)})
+			penv := g.pipelineEnv()
+			g.penvNames = sortedKeys(penv)
+			doc := dMap(dkv{"steps", g.signableSteps(4, 5, i%2 == 0)})
 			var b bytes.Buffer
 			doc.jsonText(&b)
 			text := b.String()
@@ -82,7 +84,6 @@ func init() {
 			if err != nil && !warning.Is(err) {
 				continue
 			}
-			penv := g.pipelineEnv()
 			penvBefore := fmt.Sprint(penv)
 			repo := "git@example.org:o/r.git"
 			ki := i % len(keys)
